@@ -99,6 +99,26 @@ def _work(engine_name, prop, tier, seed, indices, keep_records):
     return out
 
 
+def _work_records(engine_name, prop, tier, records):
+    """Executes explicit records (e.g. the ones an engine's prepare() phase wants judged) like ordinary runs."""
+    faulthandler.enable()
+    eng = _engine(engine_name)
+    state = eng.worker_init(prop, tier)
+    out = []
+    try:
+        for k, rec in enumerate(records):
+            try:
+                oc = eng.execute(rec, state)
+            except Exception:
+                oc = {"harness_error": traceback.format_exc()}
+            summ = {"i": -(k + 1), "run_seed": 1000000 + k, "record": rec}
+            summ.update(oc)
+            out.append(summ)
+    finally:
+        eng.worker_close(state)
+    return out
+
+
 def _same(v1, v2):
     return bool(v1) and bool(v2) and v1["oracle"] == v2["oracle"] and v1.get("cls") == v2.get("cls")
 
@@ -296,6 +316,10 @@ def run_check(engine_name, prop, tier, seed):
     t_batch = common.now()
     with _pool() as ex:
         futs = [ex.submit(_work, engine_name, prop, tier, seed, c, keep) for c in chunks]
+        extra_records = (prep or {}).pop("extra_records", []) if isinstance(prep, dict) else []
+        if extra_records:
+            futs.append(ex.submit(_work_records, engine_name, prop, tier, extra_records))
+            chunks = chunks + [[-1]]
         for f, c in zip(futs, chunks):
             remaining = deadline - common.now()
             if remaining <= 0:
